@@ -793,6 +793,11 @@ class Dict(dict, base.Symbolic, pg_typing.CustomTyping):
       raise base.WritePermissionError('Cannot pop item from a sealed Dict.')
     key, value = super().popitem()
     self._detach(value)
+    if flags.is_change_notification_enabled():
+      self._notify_field_updates([
+          base.FieldUpdate(
+              utils.KeyPath(key, self.sym_path), self, None,
+              value, pg_typing.MISSING_VALUE)])
     return key, value
 
   def clear(self) -> None:
@@ -805,13 +810,35 @@ class Dict(dict, base.Symbolic, pg_typing.CustomTyping):
       # cleared dict (e.g. required fields without default).
       value_spec.apply({}, allow_partial=base.accepts_partial(self))
     self._value_spec = None
-    old_values = list(self.sym_values())
+    old_items = list(self.sym_items())
     super().clear()
-    for old_value in old_values:
+    for _, old_value in old_items:
       self._detach(old_value)
 
     if value_spec:
-      self.use_value_spec(value_spec, self._allow_partial)
+      with flags.notify_on_change(False):
+        self.use_value_spec(value_spec, self._allow_partial)
+
+    if flags.is_change_notification_enabled():
+      # NOTE: If current dict is the field dict of a symbolic object, use the
+      # parent object as update target.
+      target = self
+      if (self.sym_parent is not None
+          and self.sym_parent.sym_path == self.sym_path):
+        target = self.sym_parent
+      updates = []
+      for key, old_value in old_items:
+        new_value = self.sym_getattr(key, pg_typing.MISSING_VALUE)
+        if old_value is not new_value:
+          field = None
+          if value_spec and value_spec.schema:
+            field = value_spec.schema.get_field(key)
+          updates.append(
+              base.FieldUpdate(
+                  utils.KeyPath(key, self.sym_path), target, field,
+                  old_value, new_value))
+      if updates:
+        self._notify_field_updates(updates)
 
   def setdefault(self, key: Union[str, int], default: Any = None) -> Any:
     """Sets default as the value to key if not present."""
